@@ -503,7 +503,9 @@ class LineWorld:
         elif k == 'sink':
             o = Sink(name, up, d.get('cycle', 0), d.get('collect', True))
         elif k == 'group':
-            g = Group(name, [self.dev[m] for m in d['members']])
+            g = Group(name, [self.dev[m] for m in d['members']],
+                      [self.dev[m] for m in d['inputs']] if d.get('inputs') else None,
+                      [self.dev[m] for m in d['outputs']] if d.get('outputs') else None)
             self.groups[name] = g
             return g
         elif k == 'path':
